@@ -43,3 +43,13 @@ Proof. exact burst_preserves_commands. Qed.
 Check C09_bursts : forall g h,
   (0 < g)%nat -> concat (regroup (length h) g (c09_model h)) = concat (c09_model h).
 Print Assumptions C09_bursts.
+
+(* the director as the runtime schedules it (wait_io_sub re-entered with a fresh subscription after a lag): what it
+   issues is what it would issue for the processed signals alone - lagging loses whole groups of signals, the verdicts
+   elected from the processed ones survive every re-entry *)
+Theorem C09_lag_keeps_verdicts : forall fuel s small g h,
+  concat (drun_groups fuel s small g h) = concat (GV.Model.Director.drun s (kept fuel small g h)).
+Proof. exact lag_loses_groups_not_verdicts. Qed.
+Check C09_lag_keeps_verdicts : forall fuel s small g h,
+  concat (drun_groups fuel s small g h) = concat (GV.Model.Director.drun s (kept fuel small g h)).
+Print Assumptions C09_lag_keeps_verdicts.
